@@ -106,7 +106,7 @@ def run(ctx):
     for p in nonpanic(walk(f, inline=STOPQ)):
         leaf = p.leaf[1]
         s = path_sig(p)[1]
-        if s == "return StreamId::new(VarInt::from_u64_unchecked(VarInt::into_inner(<impl From<StreamId> for VarInt>::from(stream_id))))":
+        if s == "return StreamId(VarInt::from_u64_unchecked(VarInt::into_inner(<impl From<StreamId> for VarInt>::from(stream_id))))":
             ok = True
     ctx.check("C06-R2", "streamid_q2w", ok, "streamid_q2w changed shape", where(f))
     ctx.check("C06-R2", "VarInt::MAX", const_int(A, "wtransport_proto::varint::VarInt::MAX") == SPEC["varint"]["max"], "wtransport VarInt::MAX != 2^62-1")
@@ -128,12 +128,13 @@ def run(ctx):
     ctx.check("C06-R2", "quinn::VarInt::MAX", qmax == SPEC["varint"]["max"], "quinn::VarInt::MAX (as evaluated in varint_w2q) is %s, expected 2^62-1" % qmax, where(f))
 
     ctx.rule("C06-R3", "delegation: reset(c) -> quinn reset(w2q(c)); stop(c) -> quinn stop(w2q(c)); public wrappers pass the code unchanged")
-    f = A.fn(D + "QuicSendStream::reset")
-    sg = [path_sig(p)[1] for p in nonpanic(walk(f))]
-    ctx.check("C06-R3", "QuicSendStream::reset", sg == ["return Result::map_err(SendStream::reset(self.0,varint_w2q(error_code)),closure:QuicSendStream::{closure#0})"], "QuicSendStream::reset changed: %s" % sg, where(f))
-    f = A.fn(D + "QuicRecvStream::stop")
-    sg = [path_sig(p)[1] for p in nonpanic(walk(f))]
-    ctx.check("C06-R3", "QuicRecvStream::stop", sg == ["return Result::map_err(RecvStream::stop(self.0,varint_w2q(error_code)),closure:QuicRecvStream::{closure#0})"], "QuicRecvStream::stop changed: %s" % sg, where(f))
+    for ty, nm, call, err in (("QuicSendStream", "reset", "SendStream::reset(self.0,varint_w2q(error_code))", "ClosedStream"), ("QuicRecvStream", "stop", "RecvStream::stop(self.0,varint_w2q(error_code))", "AlreadyStop")):
+        f = A.fn(D + "%s::%s" % (ty, nm))
+        sg = sorted(path_sig(p) for p in nonpanic(walk(f)))
+        # `x.map_err(|_| E)` returned as is, or the same thing as a `match` (quinn's Ok value is `()`)
+        okm = [l for _, l in sg] == ["return Result::map_err(%s,closure:%s::{closure#0})" % (call, ty)] and shared.error_values(nonpanic(walk(f))) == {err}
+        okx = sg == sorted([(("%s ok" % call,), "return Result::Ok(())"), (("%s fails" % call,), "return Result::Err(%s)" % err)])
+        ctx.check("C06-R3", "%s::%s" % (ty, nm), okm or okx, "%s::%s does not pass w2q(code) to quinn and map its error to %s: %s" % (ty, nm, err, sg), where(f))
     f = A.fn("wtransport::stream::SendStream::reset")
     sg = [path_sig(p)[1] for p in nonpanic(walk(f))]
     ctx.check("C06-R3", "SendStream::reset", sg == ["return QuicSendStream::reset(self.0,error_code)"], "SendStream::reset changed: %s" % sg, where(f))
